@@ -301,6 +301,9 @@ impl Scenario for Throttle {
                 v.push(json!({"bound": b, "high": hi, "low": lo, "stall": s, "grants": if tier == "thorough" { json!([1, 31, 33]) } else { json!([33]) }}));
             }
         }
+        // only the high-water mark is set (the documented default low-water mark, 0, stays)
+        v.push(json!({"bound": 1, "high": 64, "low": null, "stall": 260, "grants": [33]}));
+        v.push(json!({"bound": 16, "high": 128, "low": null, "stall": 260, "grants": [33]}));
         // the connection is closed while the backlog is still buffered and the transport takes it in
         // small grants: everything accepted before the close still goes out once, then the Close
         // (high-water mark out of reach: a channel that is throttled when the connection is closed
@@ -321,7 +324,9 @@ impl Scenario for Throttle {
     }
     fn bound(&self, tier: &str, p: &Value) -> usize {
         if p["fine"] == true {
-            return if tier == "thorough" { 2 } else { 1 };
+            // (out-of-reach high-water mark: no throttle cycles, the space is small enough for one more)
+            let deep = p["high"].as_u64().unwrap_or(0) >= 100000;
+            return if tier == "thorough" { 2 + deep as usize } else { 1 + deep as usize };
         }
         let key = p["bound"] == 1 && p["high"] == 64 && p["stall"] == 260;
         match (tier == "thorough", key) {
@@ -349,10 +354,11 @@ impl Scenario for Throttle {
             cfg.no_grant_all = true;
             cfg.max_steps = 20000;
         }
-        let tuning = ConnectionTuning::default()
-            .mem_channel_bound(p["bound"].as_u64().unwrap() as usize)
-            .buffered_writes_high_water(p["high"].as_u64().unwrap() as usize)
-            .buffered_writes_low_water(p["low"].as_u64().unwrap() as usize);
+        let mut tuning = ConnectionTuning::default().mem_channel_bound(p["bound"].as_u64().unwrap() as usize).buffered_writes_high_water(p["high"].as_u64().unwrap() as usize);
+        // ("low": null - only the high-water mark is set, the low-water mark keeps its default)
+        if let Some(lo) = p["low"].as_u64() {
+            tuning = tuning.buffered_writes_low_water(lo as usize);
+        }
         Built {
             broker: Box::new(broker),
             cfg,
@@ -575,6 +581,10 @@ impl Scenario for Tuned {
         let mut cfg = EnvConfig::default();
         cfg.horizon_ns = 400_000 * 1000 * MS;
         let chmax = neg16(c[0] as u16, s[0] as u16);
+        if chmax <= 8 {
+            let cok = |n: u16| amq_protocol::frame::AMQPFrame::Method(n, amq_protocol::protocol::AMQPClass::Channel(amq_protocol::protocol::channel::AMQPMethod::CloseOk(amq_protocol::protocol::channel::CloseOk {})));
+            broker.pushes.push(vh::sim::broker::Push::new("stray", vec![cok(chmax + 1), cok(40000)]).manual());
+        }
         let fmax = neg32(c[1] as u32, s[1] as u32);
         let (c0, c1, c2) = (c[0] as u16, c[1] as u32, c[2] as u16);
         Built {
@@ -595,6 +605,30 @@ impl Scenario for Tuned {
                 if chmax < u16::MAX {
                     let over = conn.open_channel(Some(chmax + 1));
                     ctx.log(format!("open_channel(max+1) -> {:?}", over.as_ref().map(|c| c.channel_id()).map_err(err_name)));
+                }
+                if let (Ok(ch), true) = (&top, chmax <= 8) {
+                    // stray Channel.CloseOk frames for ids above the limit (the client ignores a
+                    // CloseOk for a channel it does not know) must not make such ids available
+                    let pushed = ctx.force_push("stray");
+                    let r = ch.queue_purge("q");
+                    let mut got = Vec::new();
+                    let mut held = Vec::new();
+                    let last = loop {
+                        match conn.open_channel(None) {
+                            Ok(c) => {
+                                got.push(c.channel_id());
+                                held.push(c);
+                            }
+                            Err(e) => break err_name(&e),
+                        }
+                        if got.len() > 20 {
+                            break "still going".to_string();
+                        }
+                    };
+                    ctx.log(format!("fill (stray pushed {}, call {:?}) -> {:?} then {}", pushed, r.map_err(|e| err_name(&e)).is_ok(), got, last));
+                    for c in held {
+                        let _ = c.close();
+                    }
                 }
                 if let Ok(ch) = &top {
                     let payload = (fmax as usize).min(9000).saturating_sub(8);
@@ -647,6 +681,22 @@ impl Scenario for Tuned {
         }
         if chmax < u16::MAX && !main.iter().any(|l| *l == format!("open_channel(max+1) -> Err(\"UnavailableChannelId({})\")", chmax + 1)) {
             v.push(("tuned:channel-above-max-accepted".into(), format!("{:?}", main)));
+        }
+        if chmax <= 8 {
+            // every id below the (open) top one is handed out, nothing else, then exhaustion
+            let ids: Vec<u16> = (1..chmax).collect();
+            let want_a = format!("fill (stray pushed true, call true) -> {:?} then ExhaustedChannelIds", ids);
+            match main.iter().find(|l| l.starts_with("fill ")) {
+                Some(l) => {
+                    let mut sorted: Vec<u16> = l.split("-> [").nth(1).and_then(|x| x.split(']').next()).map(|x| x.split(", ").filter_map(|y| y.parse().ok()).collect()).unwrap_or_default();
+                    sorted.sort();
+                    let tail_ok = l.ends_with("then ExhaustedChannelIds") && l.starts_with("fill (stray pushed true, call true)");
+                    if sorted != ids || !tail_ok {
+                        v.push(("tuned:ids-beyond-channel-max".into(), format!("{} expected (in any order) {}", l, want_a)));
+                    }
+                }
+                None => v.push(("tuned:ids-beyond-channel-max".into(), format!("no fill line: {:?}", main))),
+            }
         }
         for e in envs.iter().filter(|e| e.ty == 3) {
             if e.wire_len() > fmax as usize {
